@@ -1485,6 +1485,77 @@ example (big : Bool) : ∃ c', dMulInto env4 2 ⟨big, zk43⟩ xProd xA xTwo = .
       exact zk43_adm big)
   exact ⟨c', h, hd⟩
 
+/-- **`ckks_square_into` (rank 1): the product contract discharged** (C05 `tensorSquare_eq_tensorApply`: squaring runs the data path of
+`ckks_mul_into(dst, a, a)`) -/
+theorem square_contract_discharged {env : Env} (he : EnvOK env) {N : Nat} (hN : 0 < N) {mk : MulKey} {dst a : DCt} {Hd : Int}
+    (hd : GB N env.base2k 1 Hd dst.g) (ha : DOK env N 1 a) {m : Ct}
+    (hm : squareInto env dst.ct a.ct = .ok m) {q : MulP} (hq : mulCtParams env dst.ct a.ct a.ct = .ok q)
+    (hhi : (Core.cnvOffsetSplit env.base2k q.cnv).1 ≤ divCeil a.md.effK env.base2k + divCeil a.md.effK env.base2k - 1)
+    (hroom : 2 ^ env.base2k * (4 * (divCeil a.md.effK env.base2k : Int) * N * 2 ^ env.base2k) + 8 ≤ 2 ^ (KsDec.bitsOf mk.big - 2))
+    {s : List Poly} (hs : s ≠ []) {EL KL : ℕ → ℕ → Poly} {Hp Gmax Dmax : Int}
+    (hadm : ∀ T0 T1 T2, Core.tensorApply false mk.big N env.base2k (max a.g.size a.g.size) q.cnv env.base2k
+        (effCols env.base2k a.md.effK a.g) a.md.effK (effCols env.base2k a.md.effK a.g) a.md.effK
+        (zeroC N (tensorCols a.g) (max a.g.size a.g.size)) = some [T0, T1, T2] →
+      RelinAdm mk.big N env.base2k (max a.g.size a.g.size) mk.tsk s EL KL Hp Gmax Dmax T0 T2) :
+    MulAdm env N 1 s (mulCtU N env.base2k (divCeil a.md.effK env.base2k) (max a.g.size a.g.size) dst.g.size (s.getD 0 [])
+        (relinU env.base2k dst.g.size mk.tsk.size s Gmax Dmax) : Int)
+      dst a a (dSquareInto env N mk dst a) q :=
+  squareAdm_discharged he hN hd ha hm hq hhi hroom hs hadm
+
+/-- C03's hypotheses on the relinearisation of the tensor of `xA²` with `zk43` -/
+def zk43_admSq (big : Bool) : RelinAdm big 2 4 3 zk43 [[1, 1]] zkEL (fun _ _ => [0, 0]) 0
+    (KsDec.gadgetBound 2 4 (KsDec.aDftOf (relinCt 4 2 [[0, -8], [-3, 0], [5, -4]] [[-3, -4], [4, 5], [0, -8]])) zk43.toKey zkEL)
+    (KsDec.dropBound 2 4 [[1, 1]] (KsDec.aDftOf (relinCt 4 2 [[0, -8], [-3, 0], [5, -4]] [[-3, -4], [4, 5], [0, -8]])) zk43.toKey)
+    [[0, -8], [-3, 0], [5, -4]] [[-3, -4], [4, 5], [0, -8]] where
+  hgb := rfl
+  hgn := rfl
+  hci := rfl
+  hco := rfl
+  hD := by decide
+  hM := Ks.entry_length zk43.toPMat 2 rfl (by decide)
+  hS := by decide
+  hcov1 := by decide
+  hcov2 := by decide
+  hs := by simp
+  hs1 := rfl
+  hEL := fun i r => Ks.keyErrL_length 2 4 _ zk43.toKey _ i r (by decide) (Ks.entry_length zk43.toPMat 2 rfl (by decide)) (fun _ => rfl)
+  hKL := fun _ _ => rfl
+  hkey := (zk43_adm big).hkey
+  hHp0 := le_refl _
+  hAcc := (zk43_adm big).hAcc
+  hprod := by
+    intro i hi
+    have : i = 0 ∨ i = 1 := by omega
+    rcases this with rfl | rfl
+    · decide
+    · decide
+  hG := le_refl _
+  hDr := le_refl _
+
+def roomSq (big : Bool) : (2 : Int) ^ 4 * (4 * ((divCeil xA.md.effK 4 : Nat) : Int) * ((2 : Nat) : Int) * 2 ^ 4) + 8 ≤ 2 ^ (KsDec.bitsOf big - 2) := by
+  cases big <;> (show (2 : Int) ^ 4 * (4 * ((3 : Nat) : Int) * ((2 : Nat) : Int) * 2 ^ 4) + 8 ≤ _; norm_num [KsDec.bitsOf])
+
+/-- the executed square of `xA` into `xD` with the key `zk43` -/
+example (big : Bool) : ∃ c', dSquareInto env4 2 ⟨big, zk43⟩ xD xA = .ok c' ∧ DOK env4 2 1 c' := by
+  have hq : mulCtParams env4 xD.ct xA.ct xA.ct = .ok ⟨4, 4, 12⟩ := by decide
+  have hT : Core.tensorApply false big 2 4 3 12 4 (effCols 4 xA.md.effK xA.g) xA.md.effK (effCols 4 xA.md.effK xA.g) xA.md.effK
+      (zeroC 2 (tensorCols xA.g) 3) = some [[[0, -8], [-3, 0], [5, -4]], [[10, 9], [6, -6], [-4, 12]], [[-3, -4], [4, 5], [0, -8]]] := by
+    cases big <;> decide +kernel
+  obtain ⟨c', h, _, _, hd, _⟩ := square_contract_discharged (env := env4) env4_ok (N := 2) (by norm_num) (mk := ⟨big, zk43⟩) (dst := xD)
+    (a := xA) xD_ok xA_ok (m := ⟨⟨4, 4⟩, 2⟩) (by decide) hq (by decide) (roomSq big)
+    (s := [[1, 1]]) (by simp) (EL := zkEL) (KL := fun _ _ => [0, 0]) (Hp := 0)
+    (fun T0 T1 T2 ht => by
+      have ht' : Core.tensorApply false big 2 4 3 12 4 (effCols 4 xA.md.effK xA.g) xA.md.effK (effCols 4 xA.md.effK xA.g)
+          xA.md.effK (zeroC 2 (tensorCols xA.g) 3) = some [T0, T1, T2] := ht
+      rw [hT] at ht'
+      injection ht' with ht'
+      injection ht' with h0 ht'
+      injection ht' with h1 ht'
+      injection ht' with h2 _
+      subst h0; subst h2
+      exact zk43_admSq big)
+  exact ⟨c', h, hd⟩
+
 /-- **one call of a program with products, rotations and sums** on tracked states -/
 theorem step_sem_x {env : Env} (he : EnvOK env) {N r : Nat} (hN : 0 < N) {mk : MulKey} {ak : AutKeys} {pool : DPool}
     (hp : AllOK env N r pool) (s : List Poly) {Uc Ua : ℚ} (hUc : 0 ≤ Uc) (hUa : 0 ≤ Ua) (op : XOp)
